@@ -241,7 +241,10 @@ def _validate(D, flags, hs, r):
         ys = [np.round(rng.uniform(-3, 3, size=(len(op[1]), OD)) * 8) / 8 for op in h if op[0] == "A"]
         ok, detail = _run_concrete(em, D, flags, h, [[[Fraction(float(v)) for v in row] for row in Y] for Y in ys], 0.25)
         if not ok:
-            r["inconclusive"].append(f"concrete validation failed on {_hjson(h)}: {detail}")
+            r["violations"].append({"obligation": "concrete validation", "reproduced": True, "replay_detail": detail,
+                                    "case": {"history": _hjson(h), "D": D, "flags": list(flags), "noise_var": "1/4",
+                                             "Y": frac_json([[[Fraction(float(v)) for v in row] for row in Y] for Y in ys])},
+                                    "features": {"source": "concrete_validation", "D": D}})
         n += 1
     return n
 
